@@ -28,11 +28,12 @@ Theorem C13_features_backed : forall name us order f,
 Proof. exact features_backed. Qed.
 Print Assumptions C13_features_backed.
 
-(* the finite statement itself, bounds visible: 14 profiles, under each at most 8 yielded
+(* the finite statement itself, bounds visible: the 14 base profiles plus at most 50 single-key
+   variations of the service properties (those that change what a setup() yields), under each at most 8 yielded
    SetupData hence at most 256 subsets (the sets of the five protocols are among them), every
    feature name *)
 Theorem C13_all_subsets_all_features :
-  List.length profiles = 14 /\
+  14 <= List.length profiles <= 64 /\
   forall name us, In (name, us) profiles ->
     List.length us <= 8 /\
     forall S, In S (sublists us) -> forall f, In f features ->
